@@ -5,6 +5,7 @@
    speed = hypot(vx, vy) and heading = atan2(vy, vx) for states that store both velocity components. *)
 From Coq Require Import QArith ZArith Bool List.
 From CR Require Import Base.QMod Model.Interval Proofs.Interval Model.Goal Proofs.Goal.
+From CR Require Import Model.GoalSrc Gen.Src_goal Proofs.SrcGoal.
 Import ListNotations.
 Open Scope Q_scope.
 
@@ -74,8 +75,46 @@ Proof.
   - vm_compute. reflexivity.
 Qed.
 
+(* ---- the model is the source: GoalRegion._harmonize_state_types, the checks of GoalRegion.is_reached (their order,
+   guards and tests), and the frames of is_reached / _check_value_in_interval / PlanningProblem.goal_reached are parsed
+   from commonroad/planning/goal.py and planning_problem.py on every run (Gen/Src_goal.v, harness/props/c08_src.py).
+   Run by the interpreter of Model/GoalSrc.v, the parsed programs give, for every goal state and every state, the
+   model's answer: the same Boolean, the ValueError exactly where the model has Err, no other exception (Some). *)
+Theorem C08_reached1_is_source : forall tau (pos shape : Type) (inside : shape -> pos -> bool) (hypot atan2 : Q -> Q -> Q)
+    (g : gstate shape) (s : state pos),
+  run_reached1 tau pos shape inside hypot atan2 src_harmonize src_checks g s
+  = Some (reached1 tau pos shape inside hypot atan2 g s).
+Proof. exact src_reached1_is_model. Qed.
+Theorem C08_is_reached_is_source : forall tau (pos shape : Type) (inside : shape -> pos -> bool) (hypot atan2 : Q -> Q -> Q)
+    (G : list (gstate shape)) (s : state pos),
+  run_is_reached tau pos shape inside hypot atan2 src_harmonize src_checks G s
+  = Some (is_reached tau pos shape inside hypot atan2 G s).
+Proof. exact src_is_reached_is_model. Qed.
+(* the frames (compared as text up to the names of locals) are the ones the interpreter and the model's list
+   recursion / reversed scan stand for *)
+Theorem C08_frames_are_source :
+  src_prologue = PrologueStd /\ src_loop = LoopAppendAny /\ src_check_value = CivContains /\
+  src_goal_reached = ScanReversedFirstHit.
+Proof. exact src_frames. Qed.
+(* non-vacuity: the parsed programs, run on the point-mass witness above, take the harmonising branch and accept *)
+Example C08_source_nonvacuous :
+  let tau := 710 # 113 in
+  let g := {| g_time := Some {| lo := 0; hi := 10 |}; g_pos := None;
+              g_orient := Some {| lo := 2; hi := 3 |}; g_vel := None |} in
+  let s := {| s_time := Some 1; s_pos := Some tt; s_orient := None; s_vel := Some (-1); s_vely := Some 1 |} in
+  let hyp := fun _ _ : Q => 1414 # 1000 in
+  let at2 := fun y x : Q => if Qeq_bool x (-1) then 2356 # 1000 else 615 # 1000 in
+  run_reached1 tau unit unit (fun _ _ => true) hyp at2 src_harmonize src_checks g s = Some (Ok true) /\
+  run_reached1 tau unit unit (fun _ _ => true) hyp at2 src_harmonize src_checks g
+    {| s_time := None; s_pos := Some tt; s_orient := Some 1; s_vel := Some 1; s_vely := None |} = Some Err.
+Proof. split; vm_compute; reflexivity. Qed.
+
 Print Assumptions C08_is_reached.
 Print Assumptions C08_error_iff_inadmissible.
 Print Assumptions C08_point_mass.
 Print Assumptions C08_goal_reached.
 Print Assumptions C08_nonvacuous.
+Print Assumptions C08_reached1_is_source.
+Print Assumptions C08_is_reached_is_source.
+Print Assumptions C08_frames_are_source.
+Print Assumptions C08_source_nonvacuous.
